@@ -568,14 +568,17 @@ def run_mutants(ctx, core, mutants, benign):
     killed = total = silent = btotal = 0
     survivors = []
     noisy = []
+    base = Sink(ctx)
+    core(base)
+    base_keys = {f.key() for f in base.findings}
     for label, func, tr in mutants:
         s = Sink(ctx)
         try:
             with mutated(func, tr):
                 try:
                     core(s)
-                    fired = bool(s.findings)
-                    why = "no finding"
+                    fired = bool({f.key() for f in s.findings} - base_keys)
+                    why = "no new finding"
                 except AnalysisError as e:
                     fired = False
                     why = "analysis error instead of a finding: %s" % e
@@ -586,9 +589,6 @@ def run_mutants(ctx, core, mutants, benign):
             killed += 1
         else:
             survivors.append("%s (%s)" % (label, why))
-    base = Sink(ctx)
-    core(base)
-    base_keys = {f.key() for f in base.findings}
     for label, func, tr in benign:
         s = Sink(ctx)
         try:
